@@ -245,6 +245,23 @@ func RWP[T any](p *T, site string) *T {
 	return p
 }
 
+// AP is wrapped around the first operand of append: when the n appended elements fit into the capacity they are
+// written into the existing backing array (a store the assignment hooks do not see).
+func AP[S ~[]T, T any](s S, n int, site string) S {
+	if active.Load() != nil && n > 0 && len(s)+n <= cap(s) {
+		W(&s[:cap(s)][len(s)], site)
+	}
+	return s
+}
+
+// CPW is wrapped around the destination of copy.
+func CPW[S ~[]T, T any](dst S, n int, site string) S {
+	if active.Load() != nil && n > 0 && len(dst) > 0 {
+		W(&dst[0], site)
+	}
+	return dst
+}
+
 // AtomicP is wrapped around the address operand of a sync/atomic call: a scheduling point (if the word is
 // shared) and a release/acquire pair on that address (Go's atomics are sequentially consistent).
 func AtomicP[T any](p *T, site string) *T {
